@@ -8,7 +8,7 @@ func Scenarios(property string, thorough bool) []driver.Scenario {
 	case "C25":
 		return c25Scenarios(thorough)
 	case "C26":
-		return c26Scenarios(thorough)
+		return append(c26Scenarios(thorough), c26sScenarios(thorough)...)
 	case "C27":
 		return c27Scenarios(thorough)
 	case "C28":
